@@ -160,11 +160,15 @@ pub struct GateCtl {
     pub hold: Mutex<Option<String>>,
     pub reached: AtomicBool,
     pub waker: Mutex<Option<Waker>>,
+    /// the gate holds ONE task (the first to arrive); later arrivals pass, so that two tasks that reach the same point
+    /// are interleaved instead of both being parked on one waker slot
+    pub owner: Mutex<Option<u64>>,
+    pub next_id: std::sync::atomic::AtomicU64,
 }
 pub static GATE: std::sync::OnceLock<Arc<GateCtl>> = std::sync::OnceLock::new();
 pub fn gate() -> Arc<GateCtl> {
     GATE.get_or_init(|| {
-        let g = Arc::new(GateCtl { hold: Mutex::new(None), reached: AtomicBool::new(false), waker: Mutex::new(None) });
+        let g = Arc::new(GateCtl { hold: Mutex::new(None), reached: AtomicBool::new(false), waker: Mutex::new(None), owner: Mutex::new(None), next_id: std::sync::atomic::AtomicU64::new(1) });
         zeromq::__verif::install_gate(Some(g.clone()));
         g
     })
@@ -173,8 +177,17 @@ pub fn gate() -> Arc<GateCtl> {
 impl zeromq::__verif::Gate for GateCtl {
     fn at(&self, name: &'static str) -> Pin<Box<dyn Future<Output = ()> + Send>> {
         let me = gate();
+        let id = me.next_id.fetch_add(1, Ordering::SeqCst);
         Box::pin(futures::future::poll_fn(move |cx| {
-            let held = me.hold.lock().unwrap().as_deref() == Some(name);
+            let mut held = me.hold.lock().unwrap().as_deref() == Some(name);
+            if held {
+                let mut owner = me.owner.lock().unwrap();
+                match *owner {
+                    None => *owner = Some(id),
+                    Some(o) if o == id => {}
+                    Some(_) => held = false,
+                }
+            }
             if held {
                 me.reached.store(true, Ordering::SeqCst);
                 *me.waker.lock().unwrap() = Some(cx.waker().clone());
@@ -189,6 +202,7 @@ impl zeromq::__verif::Gate for GateCtl {
 impl GateCtl {
     pub fn set_hold(&self, name: Option<String>) {
         *self.hold.lock().unwrap() = name;
+        *self.owner.lock().unwrap() = None;
         self.reached.store(false, Ordering::SeqCst);
         if let Some(w) = self.waker.lock().unwrap().take() {
             w.wake();
